@@ -440,6 +440,18 @@ fn raw_gate_families(sink: &mut Sink, o: &mut Oracle, st: &mut Stats, allowance:
                 for chunk in [1usize, 3, usize::MAX] {
                     let f = Fault { end: k, tail: Tail::Eof, cap: None, chunk };
                     if gate_case(sink, &raw, &f) { *nontrivial += 1; }
+                    // the same cut with the cap AT the cut length (the probe at the limit meets the end of the input), one below
+                    // and one above: a truncated text stays an error whichever way the end of the input is noticed
+                    for cap in [k.saturating_sub(1), k, k + 1] {
+                        gate_case(sink, &raw, &Fault { cap: Some(cap), ..f });
+                        if inside && cap >= k {
+                            let r = serde_saphyr::from_reader_with_options::<_, serde_json::Value>(SchedReader::new(&raw, &[], chunk, k, Tail::Eof), opts(Some(cap)));
+                            sink.count("utf16.truncated_at_cap");
+                            if let Ok(v) = &r {
+                                o.fail("C10-utf16-truncated-lossy", &format!("UTF-16{} input cut at byte {k} of {} (inside a code unit or surrogate pair) under cap {cap} returned a value", if be { "BE" } else { "LE" }, raw.len()), &raw[..k], &format!("ok {v}"), "err");
+                            }
+                        }
+                    }
                     // a failing call after a cut at a character boundary (inside a character the end-of-input error of the next
                     // call replaces the reader's own error in the cell before anyone looks: not a gate observation)
                     if k < n && k >= 3 && !inside && chunk == 1 { gate_case(sink, &raw, &Fault { tail: Tail::FailOnce(0), ..f }); }
@@ -640,39 +652,48 @@ fn generate(a: &Args) -> i32 {
             "base: &b1 {x: 1}\nobj: {<<: *b1, q: [1, 2, {r: s}]}\ntail: \"€\"\n",
             "obj:\n  k: &a [1, 2]\n  l: *a\n  m: {n: *a}\ntail: 日本\n",
         ];
-        for doc in tdocs {
+        macro_rules! typed_faults { ($t:ty, $docs:expr) => {{
+        for doc in $docs {
             let d = doc.as_bytes();
             let n = d.len();
-            let full = serde_saphyr::from_reader_with_options::<_, TDoc>(SchedReader::whole(d), opts(None));
+            let full = serde_saphyr::from_reader_with_options::<_, $t>(SchedReader::whole(d), opts(None));
             if full.is_err() { o.fail("C10-typed-baseline", "fault-free typed document rejected", d, "err", "ok"); continue; }
             for k in 0..n {
                 // (a) clean end of input at k: an error exactly... at least when k cuts a multi-byte character
                 let inside_char = std::str::from_utf8(&d[..k]).is_err();
                 for chunk in [1usize, 3, usize::MAX] {
                     if inside_char {
-                        let r = serde_saphyr::from_reader_with_options::<_, TDoc>(SchedReader::new(d, &[], chunk, k, Tail::Eof), opts(None));
+                        let r = serde_saphyr::from_reader_with_options::<_, $t>(SchedReader::new(d, &[], chunk, k, Tail::Eof), opts(None));
                         sink.count("typed.eof_inside_code_point");
                         nontrivial += 1;
                         if let Ok(v) = &r { o.fail("C10-single-swallows-fault", &format!("typed from_reader returned a value on input ending inside a code point at byte {k} (chunk {chunk})"), d, &format!("ok {v:?}"), "err"); }
                         let mut rd = SchedReader::new(d, &[], chunk, k, Tail::Eof);
-                        let items: Vec<bool> = serde_saphyr::read_with_options::<_, TDoc>(&mut rd, opts(None)).take(100).map(|x| x.is_ok()).collect();
+                        let items: Vec<bool> = serde_saphyr::read_with_options::<_, $t>(&mut rd, opts(None)).take(100).map(|x| x.is_ok()).collect();
                         if !items.iter().any(|ok| !ok) { o.fail("C10-iter-swallows-fault", &format!("typed read yielded no Err item on input ending inside a code point at byte {k}"), d, &format!("{items:?}"), "an Err item"); }
                     }
                     // (b) a read error that happens once at k
-                    let r = serde_saphyr::from_reader_with_options::<_, TDoc>(SchedReader::new(d, &[], chunk, k, Tail::FailOnce(0)), opts(None));
+                    let r = serde_saphyr::from_reader_with_options::<_, $t>(SchedReader::new(d, &[], chunk, k, Tail::FailOnce(0)), opts(None));
                     sink.count("typed.fail_once");
                     nontrivial += 1;
                     if let Ok(v) = &r { o.fail("C10-single-swallows-fault", &format!("typed from_reader returned a value although the reader failed once at byte {k} (chunk {chunk})"), d, &format!("ok {v:?}"), "err"); }
                 }
                 // (c) a cap that refuses the input from byte k on
-                let r = serde_saphyr::from_reader_with_options::<_, TDoc>(SchedReader::whole(d), opts(Some(k)));
+                let r = serde_saphyr::from_reader_with_options::<_, $t>(SchedReader::whole(d), opts(Some(k)));
                 sink.count("typed.cap");
                 nontrivial += 1;
                 if let Ok(v) = &r { o.fail("C10-cap-breach-accepted", &format!("typed from_reader: {n} bytes accepted with cap {k}"), d, &format!("ok {v:?}"), "err"); }
-                let r = serde_saphyr::with_deserializer_from_reader_with_options(SchedReader::whole(d), opts(Some(k)), |de| <TDoc as serde::Deserialize>::deserialize(de));
+                let r = serde_saphyr::with_deserializer_from_reader_with_options(SchedReader::whole(d), opts(Some(k)), |de| <$t as serde::Deserialize>::deserialize(de));
                 if r.is_ok() { o.fail("C10-cap-breach-accepted", &format!("typed with_deserializer_from_reader: {n} bytes accepted with cap {k}"), d, "ok", "err"); }
             }
         }
+        }} }
+        typed_faults!(TDoc, tdocs);
+        // Option positions (struct fields, sequence elements): the look-ahead that decides None / Some meets the fault
+        #[derive(Debug, serde::Deserialize)]
+        #[allow(dead_code)]
+        struct ODoc { #[serde(default)] retries: Option<u32>, #[serde(default)] name: Option<String>, #[serde(default)] tags: Vec<Option<String>>, #[serde(default)] last: Option<Vec<Option<u8>>> }
+        typed_faults!(ODoc, ["retries: 1\nname: é\n", "retries: 1\nname: \"€\"\ntags: [a, ~, é]\nlast: [1, ~]\n", "tags:\n- é\n- ~\n- ü\nname: 日本\n# é\n"]);
+        typed_faults!(Vec<Option<String>>, ["- 1\n- é\n", "- ~\n- é\n- \"€\"\n", "[a, é, ~]\n"]);
     }
 
     // ---- writer side
